@@ -458,6 +458,11 @@ func cdcRndChanDef(g *G, maxStreams int) llotypes.ChannelDefinition {
 	if g.R.Intn(2) == 0 {
 		d.Opts = cdcRndBytes(g, 40)
 	}
+	if g.R.Intn(12) == 0 {
+		// opts of a few hundred bytes to a few kilobytes (an ABI schema), around the sizes a cap would use
+		d.Opts = make([]byte, []int{255, 256, 257, 1023, 1024, 1025, 4096, 4097}[g.R.Intn(8)])
+		g.R.Read(d.Opts)
+	}
 	return d
 }
 
